@@ -72,14 +72,29 @@ impl LazyParameters {
     ///
     /// A mutex guard containing a reference to the parameters store
     pub fn get(&self) -> std::sync::MutexGuard<'_, Option<ParametersStore>> {
+        #[cfg(bc_envelope_verif)]
+        crate::verif_hooks::emit("once_enter", "PARAM");
         self.init.call_once(|| {
+            #[cfg(bc_envelope_verif)]
+            crate::verif_hooks::emit("once_run_begin", "PARAM");
             let m = ParametersStore::new([
                 BLANK,
                 LHS,
                 RHS,
             ]);
+            #[cfg(bc_envelope_verif)]
+            crate::verif_hooks::emit("blip", "PARAM");
             *self.data.lock().unwrap() = Some(m);
+            #[cfg(bc_envelope_verif)]
+            crate::verif_hooks::emit("once_run_end", "PARAM");
         });
+        #[cfg(bc_envelope_verif)]
+        {
+            let guard = self.data.lock().unwrap();
+            crate::verif_hooks::emit("acq", "PARAM");
+            return guard;
+        }
+        #[cfg(not(bc_envelope_verif))]
         self.data.lock().unwrap()
     }
 }
